@@ -1,4 +1,4 @@
-import SqlgrepModel.Lemmas.AggPermTable
+import SqlgrepModel.Lemmas.AggTotal
 /-
 C15 — order-insensitive aggregates ignore line order and how the input is split.
 
@@ -42,17 +42,17 @@ theorem agg_perm_invariant {O : Oracles} {q : AggStmt} {rows₁ rows₂ : List E
 theorem keyed_rows_permute (O : Oracles) (q : AggStmt) {rows₁ rows₂ : List Env} (h : rows₁.Perm rows₂) :
     OptPerm (keyedRows O q rows₁) (keyedRows O q rows₂) := keyedRows_perm O q h
 
-/-- **the engine's table ignores line order**: two runs of the engine over permuted inputs that both succeed show the
-same table (`finalResult`), whenever the specification fixes the outcome of the first and both inputs are outside the
-known deviation classes of C04 (D10, D15). -/
+/-- **the engine's table ignores line order**: the engine run (every row through `execute_update`, then `execute_result`
++ LIMIT) over an input and over any permutation of it both succeed and show the same table, whenever the
+specification fixes the outcome of the first and both inputs are outside the known deviation classes of C04 (D10, D15). -/
 theorem engine_perm_invariant {O : Oracles} {q : AggStmt} (hwf : StmtWF q) {rows₁ rows₂ : List Env} (h : rows₁.Perm rows₂)
     (hsafe : ∀ keyed, keyedRows O q rows₁ = some keyed → PermSafe O q keyed)
-    {st₁ st₂ : AggState} (hrun₁ : aggRun O q rows₁ {} = .ok st₁) (hrun₂ : aggRun O q rows₂ {} = .ok st₂)
     {t : List (List Value)} (hspec : table O q rows₁ = some t)
     (hc₁ : deviationClass O q rows₁ = "") (hc₂ : deviationClass O q rows₂ = "") :
-    finalResult O q { agg := st₁ } = finalResult O q { agg := st₂ } := by
-  rw [engine_refines_spec hwf rows₁ hrun₁ hspec hc₁]
-  rw [engine_refines_spec hwf rows₂ hrun₂ (by rw [← table_perm h hsafe]; exact hspec) hc₂]
+    (aggRun O q rows₁ {}).bind (fun st => finalResult O q { agg := st }) =
+      (aggRun O q rows₂ {}).bind (fun st => finalResult O q { agg := st }) := by
+  rw [engine_refines_spec_total hwf rows₁ hspec hc₁]
+  rw [engine_refines_spec_total hwf rows₂ (by rw [← table_perm h hsafe]; exact hspec) hc₂]
 
 /-! ### input split: the result over `r₁ ++ r₂` is the key-wise combination of the results over `r₁` and `r₂` -/
 
